@@ -152,6 +152,18 @@ CLAIMED = {
              "Correspondence: Go scalars vs model on elements from histories in all representations and batches 0..300.",
         note="fp inversion of gnark-crypto is compared, not verified.",
         tech="Coq proof (field identities, batch-inversion theorem) + differential correspondence", ref="DESIGN.md 6.11"),
+    "C17": dict(
+        text="The addition chain is translated from bandersnatch/fp/sqrt.go on every run (lib/gen_chain.py) and must equal "
+             "the chain the theorems were checked on. Theorems: p-1 = 2^32 Q with Q odd and the chain's exponents are exactly Q "
+             "and (Q+1)/2 (kernel computation on the chain data); for EVERY z the chain computes (z^((Q+1)/2), z^Q) (generic "
+             "interpreter lemma, induction over the chain); sqrt(0)=0; a returned root squares to the input provided the "
+             "dyadic step is sound (named premise dyadic_sound); GetPointFromX is nil exactly when the root is nil, keeps x, "
+             "and returns the lexicographically larger root iff requested; the 256 LUT keys are distinct. PARTIAL: the "
+             "dlog-by-blocks step and 'nil exactly for non-residues' (need Fp^* structure, p prime) are decided by "
+             "correspondence: structured exponents sweeping every byte of each of the 4 blocks, all 2^k-th roots of unity, "
+             "squares and non-squares in equal share, with y^2=v and an independent Euler-criterion oracle.",
+        note="invSqrtEqDyadic correctness is a premise, checked differentially.",
+        tech="translator for the addition chain + Coq proof (generic chain interpreter, modular powers) + differential correspondence", ref="DESIGN.md 6.17"),
     "C18": dict(
         text="Theorems over every commutative ring with partial inverse and EVERY domain size n>=1 (premises: differences of "
              "distinct nodes and t-node invertible; discharged for Fr, n=256 by kernel computation): the weight tables equal "
